@@ -10,7 +10,7 @@ import sys; sys.path.insert(0,'lib'); sys.path.insert(0,'.')
 from engines import abisym
 r=abisym.build('/verif/work/abisym/bmut.log')
 print('build', r[0], r[1][-400:] if r[0] else '')
-" && /verif/work/target_alt/release/abisym --prop $PROP --tier quick --jobs 6 --solver z3-new --timeout 120 --out /verif/work/abisym/mut.json --filter "$FLT" && python3 - <<'PY'
+" && /verif/work/alt/target_alt/release/abisym --prop $PROP --tier quick --jobs 6 --solver z3-new --timeout 120 --out /verif/work/abisym/mut.json --filter "$FLT" && python3 - <<'PY'
 import json, collections
 d=json.load(open('/verif/work/abisym/mut.json'))
 c=collections.Counter(i['status'] for i in d['items'])
